@@ -160,6 +160,8 @@ func (q *queue) isClosed() bool {
 func (q *queue) Close() {
 	q.closeOnce.Do(func() {
 		q.mu.Lock()
+		// closed from here on: a topic first used after this sweep is created closed (see chanSub)
+		atomic.StoreInt32(&q.isClose, 1)
 		for topic, ch := range q.chanSubs {
 			if ch.isClose == 0 {
 				select {
@@ -177,7 +179,6 @@ func (q *queue) Close() {
 		q.mu.Unlock()
 		q.done <- struct{}{}
 		close(q.done)
-		atomic.StoreInt32(&q.isClose, 1)
 		qlog.Info("queue module closed")
 	})
 }
@@ -186,7 +187,12 @@ func (q *queue) chanSub(topic string) *chanSub {
 	q.mu.Lock()
 	defer q.mu.Unlock()
 	_, ok := q.chanSubs[topic]
-	if !ok {
+	if !ok && q.isClosed() {
+		// the queue was closed before this topic was first used: nobody would ever close it
+		done := make(chan struct{})
+		close(done)
+		q.chanSubs[topic] = &chanSub{isClose: 1, done: done}
+	} else if !ok {
 		q.chanSubs[topic] = &chanSub{
 			high:    make(chan *Message, defaultChanBuffer),
 			low:     make(chan *Message, defaultLowChanBuffer),
